@@ -5,7 +5,7 @@
    CREATE [UNIQUE] INDEX) issued by ANY number of sessions in ANY interleaving, with MVCC validation at
    commit.  [cur_code] = the code as it is; [fixed_code] = with the three proposed repairs
    (fixes/C12-*.diff).  This file contains only the property theorems, each closed by `exact`. *)
-From V Require Import SQLCons.Model SQLCons.Basics SQLCons.Steps SQLCons.Frame SQLCons.RowInv SQLCons.Unique
+From V Require Import SQLCons.Model SQLCons.Spec SQLCons.Basics SQLCons.Steps SQLCons.Frame SQLCons.RowInv SQLCons.Unique
      SQLCons.Refuted SQLCons.Insert SQLCons.Theorems.
 From Coq Require Import ZArith.
 Open Scope N_scope.
